@@ -143,6 +143,7 @@ main(int argc, char **argv)
 			clayout, cc.buflen, slayout, sc.buflen, chunk, wpol, c_total, s_total, closer);
 
 		tp_pair_init(&p, (uint64_t)seed, (uint64_t)idx * 7 + 3, chunk);
+		p.defer_acks = (idx % 5) == 2;      /* completion-style output on split buffers */
 		p.c.tx_key = vf_u64(&r);
 		p.s.tx_key = vf_u64(&r);
 		tm_pair_attach(&pm, &p);
@@ -185,6 +186,14 @@ main(int argc, char **argv)
 				p.s.tx_done, s_total, p.s.rx_done, c_total, br_ssl_engine_last_error(p.s.eng));
 			TP_VIOL("stream:incomplete", what);
 			goto next;
+		}
+		/* half of the sessions: the closing side writes a last piece and closes at once, without flushing and
+		   without waiting for the transport: that piece must still arrive, followed by the orderly closure */
+		if (closer < 2 && (idx & 1)) {
+			tp_ep *ce = closer == 0 ? &p.c : &p.s;
+			size_t tail = tp_act_write(ce, 1 + vf_below(&r, 300));
+			if (closer == 0) c_total += tail; else s_total += tail;
+			vf_stat("close_with_unflushed_data", 1);
 		}
 		close_ok = tp_run_close(&p, closer, 2000000);
 		if (!close_ok || br_ssl_engine_last_error(p.c.eng) != 0
